@@ -112,6 +112,9 @@ def run_cases(chk, fam, cases, label='', peers=None):
                 | {'failBag': sorted(by_id[p]['rep']['failIds']),
                    'errBag': sorted(by_id[p]['rep']['errIds']),
                    'hasLists': by_id[p]['o']['verbose'] > 0,
+                   'layerFaults': len([e for e in by_id[p]['ev']
+                                       if (e['e'] == 'SUE' and e['s'] != 'ok')
+                                       or (e['e'] == 'TDE' and e['s'] == 'raise')]),
                    'id': p}
                 for p in peers.get(r['id'], ()) if p != r['id'] and p in by_id]
     verdicts, tres = core.validate(recs)
